@@ -258,10 +258,15 @@ fn run_factory(cx: &CaseCtx, rep: &mut Report, rng: &mut Rng, n: usize, csv_mode
 	for i in 0..n {
 		let csv = mvtsrc::gen_csv(rng).text;
 		let (vpl, csv_bytes, class): (String, Vec<u8>, &str) = if csv_mode {
-			let c = match rng.below(6) {
+			let c = match rng.below(7) {
 				0 => vec![],
 				1 => b"id\n".to_vec(),
 				2 => format!("id,kind\n1,a,b,c\n2,x\n").into_bytes(),
+				4 => {
+					// numeric-looking cells beyond the integer / float types
+					let cell = *rng.pick(&["99999999999999999999999999", "-99999999999999999999999", "18446744073709551616", "-9223372036854775809", "٣", "-٣٤", "1.٥", ".5", "-.", "1e400", "0.00000000000000000000000000000000000001", "００７"]);
+					format!("id,kind,population\nid1,primary,{cell}\n{cell},secondary,5\n").into_bytes()
+				}
 				3 => rng.bytes_between(0, 119),
 				_ => mutate(csv.as_bytes(), rng, true, &[]),
 			};
@@ -324,6 +329,22 @@ fn run_mvt(cx: &CaseCtx, rep: &mut Report, rng: &mut Rng, n: usize) {
 				crate::codec::put_varint(&mut v, *rng.pick(&[u64::MAX, 1 << 62, 1 << 40, 1 << 31, 5_000_000_000]));
 				v.extend_from_slice(&seed[..seed.len().min(20)]);
 				(v, "announced-length")
+			}
+			2 => {
+				// a well-formed tile whose geometry uses extreme deltas / counts
+				let mut g = vec![];
+				let zz = |v: i64| ((v << 1) ^ (v >> 63)) as u64;
+				for _ in 0..rng.range(1, 3) {
+					crate::codec::put_varint(&mut g, (rng.range(1, 3) << 3) | *rng.pick(&[1u64, 2]));
+					for _ in 0..6 {
+						crate::codec::put_varint(&mut g, zz(*rng.pick(&[i64::MAX, i64::MIN, i64::MAX - 1, 1 << 62, -(1 << 62), 5, -5])));
+					}
+				}
+				if rng.bool() {
+					crate::codec::put_varint(&mut g, (*rng.pick(&[u64::MAX >> 3, 1 << 40, 1 << 29]) << 3) | 2);
+				}
+				let l = imvt::WLayer { name: "g".into(), version: 2, extent: *rng.pick(&[4096u32, 0, u32::MAX]), features: vec![imvt::WFeature { id: Some(u64::MAX), gtype: rng.range(1, 3), geom: g, props: vec![] }] };
+				(imvt::encode_tile(&[l], &enc, rng), "geometry-extremes")
 			}
 			_ if i % 9 == 0 => (seed.clone(), "valid"),
 			_ => (mutate(&seed, rng, false, &[]), "mvt-mutation"),
